@@ -78,6 +78,9 @@ B('C02.drop-unicode-handler', ['C02'], [(P + 'common/parse.py',
 B('C02.date-decimal-error-unhandled', ['C02'], [(P + 'common/parse.py', "        except (ValueError, OverflowError, decimal.InvalidOperation) as e:", "        except (ValueError, OverflowError) as e:")], mention='InvalidOperation')
 N('benign.date-arithmetic-error-handled', [(P + 'common/parse.py', "        except (ValueError, OverflowError, decimal.InvalidOperation) as e:", "        except (ValueError, ArithmeticError) as e:")])
 B('C02.lazy-certificate-property-outside-handler', ['C02'], [(P + 'ssh/key.py', "            try:\n                key_type = public_key.key_type\n            except ValueError as e:\n                six.raise_from(InvalidValue(parsable, cls, 'public_key'), e)\n", "            key_type = public_key.key_type\n")], mention='lazy.key_type')
+B('C05.zoneless-date-stays-naive', ['C05'], [(P + 'common/parse.py', "            if date_time.tzinfo is None:\n                date_time = date_time.replace(tzinfo=dateutil.tz.UTC)\n            else:\n                date_time = date_time.astimezone(dateutil.tz.UTC)\n", "            if date_time.tzinfo is not None:\n                date_time = date_time.astimezone(dateutil.tz.UTC)\n")], mention='zone-less')
+B('C05.date-fraction-kept', ['C05'], [(P + 'common/parse.py', "            date_time = date_time.replace(microsecond=0)\n", "")], mention='fraction')
+N('benign.date-normalised-in-two-steps', [(P + 'common/parse.py', "            if date_time.tzinfo is None:\n                date_time = date_time.replace(tzinfo=dateutil.tz.UTC)\n            else:\n                date_time = date_time.astimezone(dateutil.tz.UTC)\n            date_time = date_time.replace(microsecond=0)\n", "            if date_time.tzinfo is None:\n                date_time = date_time.replace(tzinfo=dateutil.tz.UTC)\n            date_time = date_time.astimezone(dateutil.tz.UTC).replace(microsecond=0)\n")])
 B('C02.unsupported-width', ['C02'], [(P + 'tls/extension.py', "        parser.parse_numeric('record_size_limit', 2)", "        parser.parse_numeric('record_size_limit', 5)")], props=['C02'])
 B('C02.raw-index', ['C02'], [(P + 'tls/extension.py', "        if parser['extension_data']:\n            raise InvalidValue(parser['extension_data'], cls)",
                              "        if parser['extension_data'][0]:\n            raise InvalidValue(parser['extension_data'], cls)")])
